@@ -36,6 +36,14 @@ var c09Progs = []string{
 	"(let ((v (cons 0 '(3 1 2)))) (stable-sort < (cdr v)) v)",
 	"(labels ((f (l) (stable-sort < l))) (f '(3 1 2)) (f '(3 1 2)))",
 	"(let ((v (vector 5 4))) (append! v '(3 1 2)) (stable-sort < (nth v 2)) v)",
+	"(defun sort-args (&rest xs) (stable-sort < xs)) (apply sort-args '(3 1 2))",
+	"(defun sort-args (&rest xs) (stable-sort < xs)) (apply sort-args 9 '(3 1 2))",
+	"(defun sort-args (a &rest xs) (stable-sort < xs)) (apply sort-args '(3 1 2))",
+	"(defun sort-args (&rest xs) (stable-sort < xs)) (funcall sort-args 3 1 2) (unpack sort-args '(3 1 2))",
+	"(defun sort-args (&optional xs) (stable-sort < xs)) (apply sort-args '((3 1 2)))",
+	"(defun app (&rest xs) (append! (append 'vector xs) 7)) (apply app '(3 1 2))",
+	"(defmacro m (&rest xs) (quasiquote (quote (unquote (stable-sort < xs))))) (list (m 3 1 2) (m 3 1 2))",
+	"(let ((f (lambda (&rest xs) (stable-sort < xs)))) (list (apply f '(3 1 2)) (apply f '(3 1 2))))",
 }
 
 // Evaluating a parsed program never changes it: no write reaches a node of the sealed tree, every
@@ -79,6 +87,27 @@ func VerifC09_EFrozen() {
 	vAssert(outcome(r1) == outcome(r2), "loading the same Program again in the same runtime gives the same result")
 	vAssert(outcome(r1) == outcome(r3), "and the same result in a fresh runtime")
 	vAssert(prog.String() == text0, "the program is unchanged afterwards")
+	// the same through the reader's own (sealed) expression list, whose structural fingerprint and
+	// printed form can be inspected before and after (this is the oracle a native replay can see)
+	env4 := mk()
+	exprs, rerr := env4.Runtime.Reader.Read("prog", strings.NewReader(src))
+	vAssert(rerr == nil, "program reads")
+	fp0 := lisp.SealedASTFingerprint(exprs)
+	var txt0 []string
+	for _, e := range exprs {
+		txt0 = append(txt0, e.String())
+	}
+	for round := 0; round < 2; round++ {
+		for _, e := range exprs {
+			if r := env4.Eval(e); r.Type == lisp.LError {
+				break
+			}
+		}
+	}
+	vAssert(lisp.SealedASTFingerprint(exprs) == fp0, "the program's structural fingerprint is unchanged after evaluation")
+	for i, e := range exprs {
+		vAssert(e.String() == txt0[i], "every expression of the program still prints as it was read: "+txt0[i]+" became "+e.String())
+	}
 	// a fresh parse gives the same result
 	env3 := mk()
 	r4 := env3.LoadString("prog", src)
